@@ -105,17 +105,18 @@ Proof.
     specialize (H HK1 T1 Hk). rewrite fft_eta in H. cbn [snd] in H. fold n in H. rewrite Hsz in H. exact H. }
   assert (Hlfa : length fa = n) by (unfold fa; now rewrite zip_acc_length, repeat_length).
   assert (Hlfb : length fb = n) by (unfold fb; now rewrite zip_acc_length, repeat_length).
-  set (prod := map (fun p => cmul (fst p) (snd p)) (combine fa fb)).
-  assert (Hlp : length prod = n) by (unfold prod; rewrite map_length, combine_length; lia).
+  set (prod := cprod ops fa fb).
+  assert (Hlp : length prod = n) by (unfold prod, cprod; rewrite map_length, combine_length; lia).
   assert (Hprod : forall k, k < n -> nth k prod czero = Ptr K1 (S j) a b k).
-  { intros k Hk. unfold prod. rewrite nth_map_combine by lia. rewrite Hfa, Hfb by exact Hk.
+  { intros k Hk. unfold prod, cprod. rewrite nth_map_combine by lia. rewrite Hfa, Hfb by exact Hk.
     apply (AB_is_P ops inr L tw K1 a b j HK1 T1 Hj1 Ha Hb Htot). }
   unfold fft_inv_into. rewrite Hlp.
   assert (Hn1 : (n =? 1) = false).
   { apply Nat.eqb_neq. unfold n. rewrite Nat.pow_succ_r'. pose proof (pow2_pos j). lia. }
   rewrite Hn1.
   assert (HR2 : length (R s2) = 2 ^ K1) by apply (good_len_R ops tw K1 s2 Hg2).
-  rewrite HR2.
+  rewrite (update_n_id ops tw s2 n) by (rewrite HR2; unfold n; now apply pow2_le).
+  unfold fft_inv_body. rewrite Hlp, HR2.
   assert (Hh : n / 2 = 2 ^ j) by (unfold n; rewrite Nat.pow_succ_r', (Nat.mul_comm 2), Nat.div_mul; lia).
   rewrite Hh.
   set (buf := map _ (seq 0 (2 ^ j))).
